@@ -185,7 +185,13 @@ func c12Run(t testing.TB, in c12In, slow int) c12Obs {
 	gate := &c12Gate{arrived: make(chan chan struct{}, 8)}
 	logger := slog.New(c12GateHandler{gate})
 	svc := NewService(logger, nil, common.Address{}, nil, c12Validator)
-	wait := time.Duration(slow) * 10 * time.Second
+	// wall-clock limit of one blocking step: a step that does not come back is observed as a hang
+	// (stream state 9 / call result 9); nothing in the service can block legitimately for that long
+	ws := slow
+	if ws > 2 {
+		ws = 2
+	}
+	wait := time.Duration(ws) * 3 * time.Second
 	settle := time.Duration(slow) * 30 * time.Millisecond
 
 	obs := c12Obs{Calls: []c12CallObs{}, Emitted: []c12Emit{}, Streams: []c12StreamObs{}, Taken: []int{}, Gated: []bool{}}
@@ -716,8 +722,24 @@ func c12Generate(r *rand.Rand, class string) c12In {
 func TestVerifC12(t *testing.T) {
 	e := vfOpen(t, 60)
 	defer e.Close()
+	hangs := 0
 	run := func(class string, in c12In) {
+		if hangs >= 5 {
+			return // a broken tree: every further case would wait out its limit as well
+		}
 		obs := c12Run(t, in, e.Slow)
+		for _, so := range obs.Streams {
+			if so.State == 9 {
+				hangs++
+				break
+			}
+		}
+		for _, co := range obs.Calls {
+			if co.Res == 9 {
+				hangs++
+				break
+			}
+		}
 		if class == "gated-streams" {
 			// self-check of the gate: if the service no longer logs the expected record between lookup and
 			// callback, the schedule falls back to the sequential one and the case is labelled accordingly
